@@ -9,7 +9,7 @@ HARNESS = [os.path.join(vlib.HARNESS, "root", "common_test.go"), os.path.join(vl
 def run(ctx):
     q = ctx.quick()
     tp = ctx.path("trace.ndjson")
-    n = 300 if q else 5000
+    n = 300 if q else 60000
     rc, out = vlib.go_test(ctx, "", HARNESS, "TestVerifWire$", env={"VERIF_OUT": tp, "VERIF_NRANDOM": n}, timeout=1800)
     if rc != 0:
         raise vlib.MachineryError("wire driver failed:\n" + out[-3000:])
